@@ -539,15 +539,17 @@ impl ClusterHandler for GenCommHandler<'_> {
                 let pase_sess_id =
                     matches!(sess.get_session_mode(), SessionMode::Pase { .. }).then(|| sess.id());
 
+                // Persist the fabric and the network settings first: prior to sending the other party
+                // a "success" status, and prior to disarming the fail-safe. If the store fails, the
+                // command fails with the fail-safe still armed: the commissioner can retry, or else the
+                // expiry undoes what was done under the fail-safe. (Disarming first would leave the
+                // changes in force with nothing stored and no timer left to undo them.)
+                let sess_mode = sess.get_session_mode().clone();
+
                 let fabric = state
                     .failsafe
-                    .disarm(sess.get_session_mode(), &mut state.fabrics)?;
+                    .check_disarm(&sess_mode, &mut state.fabrics)?;
 
-                state.pase.close_comm_window(notify_mdns, notify_change)?;
-                state.sessions.remove_pase(pase_sess_id);
-                ctx.exchange().matter().transport().notify_session_removed();
-
-                // Finally, persist the fabric and the network settings, prior to sending the other party a "success" status
                 persist.store(fabric)?;
                 ctx.networks().access(|networks| {
                     networks.set_managed(true)?;
@@ -556,6 +558,12 @@ impl ClusterHandler for GenCommHandler<'_> {
                         .persist_mut()
                         .store(NETWORKS_KEY, |buf| networks.save(buf))
                 })?;
+
+                state.failsafe.disarm(&sess_mode, &mut state.fabrics)?;
+
+                state.pase.close_comm_window(notify_mdns, notify_change)?;
+                state.sessions.remove_pase(pase_sess_id);
+                ctx.exchange().matter().transport().notify_session_removed();
 
                 info!("Commissioning complete, fabric and network settings persisted");
 
